@@ -49,6 +49,7 @@ func profile() lang.Profile {
 	p.FreeVars = true
 	p.OptShapes = true
 	p.ObserveAll = 60
+	p.WsCalls = true
 	p.IllTyped = 2
 	p.Status = true
 	p.StrCompare = true
@@ -163,7 +164,35 @@ type result struct {
 	err        bool
 	errMsg     string
 	val        interface{}
+	effects    []string // ws.* calls in the order the VM made them
 }
+
+// wsRecorder is the only side-effecting thing bytecode can talk to: it records every call.
+// get_connection_count answers with the number of joins so far, so a read moved across a
+// join shows in the result as well.
+type wsRecorder struct {
+	log   []string
+	joins int
+}
+
+func (w *wsRecorder) rec(f string, a ...interface{}) { w.log = append(w.log, fmt.Sprintf("%s%v", f, a)) }
+func (w *wsRecorder) Send(m interface{}) error          { w.rec("send", glyphrun.Show(m)); return nil }
+func (w *wsRecorder) Broadcast(m interface{}) error     { w.rec("broadcast", glyphrun.Show(m)); return nil }
+func (w *wsRecorder) BroadcastToRoom(r string, m interface{}) error {
+	w.rec("broadcast_to_room", r, glyphrun.Show(m))
+	return nil
+}
+func (w *wsRecorder) JoinRoom(r string) error   { w.joins++; w.rec("join", r); return nil }
+func (w *wsRecorder) LeaveRoom(r string) error  { w.rec("leave", r); return nil }
+func (w *wsRecorder) Close(reason string) error { w.rec("close", reason); return nil }
+func (w *wsRecorder) GetRooms() []string        { w.rec("get_rooms"); return []string{"r1"} }
+func (w *wsRecorder) GetRoomClients(r string) []string {
+	w.rec("get_room_clients", r)
+	return []string{"c1"}
+}
+func (w *wsRecorder) GetConnectionID() string { return "c1" }
+func (w *wsRecorder) GetConnectionCount() int { w.rec("get_connection_count"); return 3 + w.joins }
+func (w *wsRecorder) GetUptime() int64        { return 42 }
 
 func (r result) String() string {
 	switch {
@@ -172,9 +201,9 @@ func (r result) String() string {
 	case r.compileErr != "":
 		return "compile error: " + r.compileErr
 	case r.err:
-		return "runtime error: " + r.errMsg
+		return "runtime error: " + r.errMsg + fmt.Sprintf(" effects %v", r.effects)
 	}
-	return "value " + glyphrun.Show(r.val)
+	return "value " + glyphrun.Show(r.val) + fmt.Sprintf(" effects %v", r.effects)
 }
 
 func same(a, b result) bool {
@@ -188,6 +217,10 @@ func same(a, b result) bool {
 		return true
 	}
 	if a.err != b.err {
+		return false
+	}
+	// side effects: the same calls in the same order, also when the evaluation ends in an error
+	if strings.Join(a.effects, "\n") != strings.Join(b.effects, "\n") {
 		return false
 	}
 	if a.err {
@@ -228,11 +261,13 @@ func execute(bc []byte, binding map[string]interface{}) (res result) {
 	m.SetLocal("query", vm.ObjectValue{Val: map[string]vm.Value{}})
 	m.SetLocal("input", vm.NullValue{})
 	m.SetLocal("headers", vm.ObjectValue{Val: map[string]vm.Value{}})
+	rec := &wsRecorder{}
+	m.SetWebSocketHandler(rec)
 	v, err := m.Execute(bc)
 	if err != nil {
-		return result{err: true, errMsg: err.Error()}
+		return result{err: true, errMsg: err.Error(), effects: rec.log}
 	}
-	return result{val: vm.ToInterface(v)}
+	return result{val: vm.ToInterface(v), effects: rec.log}
 }
 
 func run(c Case) evid.Outcome {
